@@ -236,7 +236,13 @@ def insertByKey (x : Loader) : List Loader → List Loader
   | [] => [x]
   | y :: ys => if x.cls.key < y.cls.key then x :: y :: ys else y :: insertByKey x ys
 
-/-- sort.Slice on fewer than 13 elements = insertion sort, left to right (stable) -/
+/-- sort.Slice of one class (order_component.go:28-29).  Up to 12 elements Go's pdqsort_func is exactly this
+    insertion sort, left to right (stable: equal Order() values stay in the order in which they were added).
+    From 13 elements on it is pdqsort, which may reorder EQUAL elements; when no two members of the class share an
+    Order() value the ascending arrangement is unique and is this one whatever the algorithm
+    (`sortByKey_unique`, `C15_sequence_determined`).  A class of 13+ members WITH equal Order() values is outside
+    the modelled fragment (the harness never generates it; the property is silent on ties).
+    The none-ordered class is never sorted (appended as it is), for any size. -/
 def sortByKey (l : List Loader) : List Loader := l.foldl (fun acc x => insertByKey x acc) []
 
 /-- framework_helper.SortOrderedComponents (order_component.go:8-35) -/
